@@ -183,6 +183,7 @@ func c03(c *Ctx) {
 	tb.InlineMaxBlocks = 0
 
 	c.ruleRestore(tb, func(r string) string { return r })
+	c.ruleFanWrites("R-write")
 	c.R.Require("R-exit", 1)
 	c.R.Require("R-init", 1)
 
@@ -633,4 +634,99 @@ func mustPassHelper(ins ssa.Instruction, from *ssa.Function, pred func(ssa.Instr
 		}
 	})
 	return !missed
+}
+
+// ruleFanWrites: every Fan.SetPwm implementation performs the write on every path that reports success. The
+// typestates of C03 (final SetPwm(255)) and the value rules of C01/C05 treat an invoke of Fan.SetPwm as "the
+// value is now in the fan"; an implementation that returns nil without writing (a cached "already there"
+// shortcut on a value it read some time ago) makes that false: the restore's full-speed fallback is skipped.
+func (c *Ctx) ruleFanWrites(rule string) {
+	// a library call that writes: any function or method named Write* (os.WriteFile, (*os.File).Write,
+	// io.WriteString, atomic.WriteFile, ...), fmt.Fprint*, os.Rename, or running an external command
+	isSinkName := func(n string) bool {
+		switch n {
+		case "(*os/exec.Cmd).Run", "(*os/exec.Cmd).Output", "(*os/exec.Cmd).CombinedOutput", "(*os/exec.Cmd).Start",
+			"fmt.Fprint", "fmt.Fprintf", "fmt.Fprintln", "os.Rename":
+			return true
+		}
+		if strings.HasPrefix(n, "github.com/markusressel/fan2go/") || strings.HasPrefix(n, "(*github.com/markusressel/fan2go/") || strings.HasPrefix(n, "(github.com/markusressel/fan2go/") {
+			return false
+		}
+		last := n
+		if k := strings.LastIndex(last, "."); k >= 0 {
+			last = last[k+1:]
+		}
+		return strings.HasPrefix(last, "Write")
+	}
+	writes := map[*ssa.Function]bool{}
+	var doesWrite func(f *ssa.Function, depth int) bool
+	doesWrite = func(f *ssa.Function, depth int) bool {
+		if v, ok := writes[f]; ok {
+			return v
+		}
+		if depth > 4 || len(f.Blocks) == 0 {
+			return false
+		}
+		writes[f] = false
+		found := false
+		Calls(f, func(cc ssa.CallInstruction) {
+			if found {
+				return
+			}
+			if _, isGo := cc.(*ssa.Go); isGo {
+				return
+			}
+			if isSinkName(ir.CallName(cc)) {
+				found = true
+				return
+			}
+			if st := ir.Callee(cc).Static; st != nil && c.P.IsRepoFunc(st) && load_FuncPkgPath(st) != PkgUI && doesWrite(st, depth+1) {
+				found = true
+			}
+		})
+		writes[f] = found
+		return found
+	}
+	n := 0
+	for _, fn := range c.ImplMethods(PkgFans, "Fan", "SetPwm") {
+		if len(fn.Blocks) == 0 || load_FuncPkgPath(fn) != PkgFans {
+			continue
+		}
+		n++
+		fk := c.FK(fn)
+		ei := errResultIndex(fn)
+		isWrite := func(ins ssa.Instruction) bool {
+			cc, ok := ins.(ssa.CallInstruction)
+			if !ok {
+				return false
+			}
+			if _, isDefer := ins.(*ssa.Defer); isDefer {
+				return false
+			}
+			if isSinkName(ir.CallName(cc)) {
+				return true
+			}
+			st := ir.Callee(cc).Static
+			return st != nil && c.P.IsRepoFunc(st) && load_FuncPkgPath(st) != PkgUI && doesWrite(st, 0)
+		}
+		bad := ""
+		for _, rv := range returnsFrom([]ir.Point{{Block: fn.Blocks[0]}}, ir.Search{StopInstr: isWrite}) {
+			if ei >= 0 {
+				facts := factsAt(rv.ret.Block(), rv.via)
+				if !mayBeNilError(rv.ret.Results[ei], facts) || !mayBeNilError(ir.ResultVia(rv.ret, ei, rv.via), facts) {
+					continue
+				}
+			}
+			bad = c.P.Pos(rv.ret.Pos())
+		}
+		if bad != "" {
+			c.R.Bad(rule, fk, fk, bad, "this Fan.SetPwm implementation can report success without having written anything (return at "+bad+"): callers - the restore's final SetPwm(255) among them - take a nil result for 'the fan now has this value'")
+		} else {
+			c.R.Ok(rule, fk, fk, c.P.Pos(fn.Pos()), "every path that can return a nil error passes a write to the device (file write / command run)")
+		}
+	}
+	if n == 0 {
+		c.R.Undecided(rule, "none", PkgFans, "-", "no Fan.SetPwm implementation found (anchor unresolved)")
+	}
+	c.R.Require(rule, 3)
 }
